@@ -266,6 +266,28 @@ def enc_record_reused(rid, m, d, legacy):
     return rec
 
 
+def reenc_record(rid, d, legacy1, legacy2):
+    """A message that came out of parse_msg() is encoded again (what a forwarder / sniffer / dump tool
+    does): the octets are those of the layout for its values, whatever the first datagram looked like."""
+    m = mk_tx(d) if d["cls"] == "tx" else mk_rx(d)
+    try:
+        raw1 = m.gen_msg(legacy1)
+        m2 = data_msg.TxMsg() if d["cls"] == "tx" else data_msg.RxMsg()
+        m2.parse_msg(bytearray(raw1))
+    except Exception:
+        return None                       # judged by the plain enc records
+    rec = dict(id=rid, e="enc", cls=d["cls"], m=d, legacy=bool(legacy2), reused=True)
+    try:
+        raw = m2.gen_msg(legacy2)
+    except Exception as e:
+        rec.update(raw=[], err=type(e).__name__, dec=dict(ok=False))
+        return rec
+    rec["raw"] = list(raw)
+    rec["err"] = ""
+    rec["dec"] = parse_any(d["cls"], bytes(raw))
+    return rec
+
+
 def parse_any(cls, raw):
     m = data_msg.TxMsg() if cls == "tx" else data_msg.RxMsg()
     try:
